@@ -27,7 +27,9 @@ def run(ctx):
         "TLC: every model with 1..MaxFields fields from a 27-entry catalogue x root/child namespaces x every instance over the "
         "value sets; node-stack invariants in every state. Real code: each case serialised with 7 serializer configurations x "
         "prefix maps, parsed back with both handlers, compared with the original; parser traces compared with the "
-        "specification step by step. A case is a distinct (model, instance)."
+        "specification step by step. Compound fields (spec/Compound.tla: choices of pairwise different types x namespaces x "
+        "nillable x list/single; TLC checks that the documented contract is injective and determined) are serialised, compared "
+        "with the prescribed document, parsed back, and the harness-written prescribed document is parsed. A case is a distinct (model, instance)."
     )
     ctx.assumptions += ["values are drawn from the stated value sets (XML 1.0 representable)", "dataclass equality; NaN is not in the TLC universe (zoo covers it)"]
     mf = ctx.pick(1, 2)
@@ -47,6 +49,10 @@ def run(ctx):
             ctx.sample({"model_fields": [f"{f['name']}:{f['kind']}:{f['tp']}:{f['card']}" for f in case["m"]["fields"]],
                         "root_ns": case["m"]["ns"], "instance": case["inst"], "prescribed": case["doc"]})
     ctx.extra["tlc_cases_replayed"] = len(cases)
+    # compound ("Elements") fields: spec/Compound.tla
+    from .. import compound_bind
+
+    compound_bind.run_phase(ctx)
     zoo_roundtrip(ctx, ctx.pick(250, 5000))
 
 
